@@ -14,6 +14,8 @@ use std::time::Instant;
 
 pub const BUILD: &str = if cfg!(feature = "asan") {
     "asan"
+} else if cfg!(all(feature = "inproc", feature = "asynch")) {
+    "async-inproc"
 } else if cfg!(feature = "inproc") {
     "inproc"
 } else if cfg!(feature = "memfd") {
